@@ -23,7 +23,7 @@ def what_fn(case, obs, verdict):
 
 RULE = ("non-trivial: seq cases on a schedule of >=2 parts with at least one Next; conc cases on a schedule of >=2 parts "
         "with >=2 goroutines and >=2 Next calls; race / srace cases (bare leaves, repeated contended drains; srace = not started, "
-        "the first Next calls race to start it) on a schedule with >=1 token; fact cases (K >= 2 schedules of one factory decoded "
+        "the first Next calls race to start it) on a schedule with >=1 token; urace cases (live unlimited part, lazy start, Left poller) with >=2 Next calls; fact cases (K >= 2 schedules of one factory decoded "
         "from a configuration) on a schedule of >=2 parts with at least one Next; distinct = distinct case lines")
 
 TRUSTED = [
@@ -34,10 +34,9 @@ TRUSTED = [
     "modelled, not verified: leaf token offsets (given as tables drained from fresh real leaves; property C01), "
     "sync.RWMutex / sync.Once / go.uber.org/atomic atomicity, the wall clock (oracle input); the merge of started.Store / "
     "started.Load into the adjacent lock sections (design/C02.md)",
-    "doAtSchedule below the atomic-leaf level (Properties/C02_leaf.v, Model/SchedLeafConc.v): one step per shared access, sync.Once as "
-    "skip-when-done / wait-while-busy / done+release at the end of the body; the method bodies are re-read from do_at.go / start_sync.go "
-    "by harness/cmd/trC02 (go/ast -> Gen/SchedSyncGen.v, bridge_doat_sync); composition with the composite theorems is argued, not proved; "
-    "unlimitedSchedule operations stay atomic by assumption",
+    "doAtSchedule and unlimitedSchedule below the atomic-leaf level (Properties/C02_leaf.v, Model/SchedLeafConc.v): one step per shared access, sync.Once as "
+    "skip-when-done / wait-while-busy / done+release at the end of the body; the method bodies are re-read from do_at.go / unlilmited.go / start_sync.go "
+    "by harness/cmd/trC02 (go/ast -> Gen/SchedSyncGen.v, bridge_doat_sync, bridge_unl_sync); composition with the composite theorems is argued, not proved",
     "factory-made schedules (Properties/C02_factory.v, Model/SchedFactory.v): store-free model, a factory call runs the constructors again; "
     "that the real registry hands out schedules sharing no part is observed by the fact cases only",
     "nested composites under concurrency (Properties/C02_nested.v, Model/SchedNested.v): child operations under a read lock are interleaved "
